@@ -53,6 +53,7 @@ func isIn(list []string, s string) bool {
 type item struct {
 	Batch batch `json:"batch"`
 	From  int   `json:"from"`
+	Skip  []int `json:"skip,omitempty"` // cases that killed an earlier child (already attributed): not executed again
 }
 
 func buildPlan(quick bool) []item {
@@ -127,10 +128,15 @@ func buildPlan(quick bool) []item {
 		cfgs = append(cfgs, capCfg{pg, false, "on"}, capCfg{pg, true, ""}, capCfg{pg, true, "on"}, capCfg{pg, true, "shared-cache"})
 	}
 	cfgs = append(cfgs, capCfg{0, true, ""}, capCfg{0, true, "on"}, capCfg{0, true, "shared-cache"})
+	// ... and an initially EMPTY shared memory (base pointer of an empty buffer; shared memories are never re-loaded after calls)
+	cfgs = append(cfgs, capCfg{0, false, "shared-memory"})
 	for _, name := range capOps {
 		for _, c := range cfgs {
 			for _, engine := range []string{"compiler", "interpreter"} {
 				b := batch{Engine: engine, Kind: mkLocal, Pages: c.pages, Op: name, Offs: capOffs, Level: 3, DeclMax: c.declMax, CapMax: c.capMax}
+				if c.capMax == "shared-memory" {
+					b.Kind, b.CapMax = mkShared, ""
+				}
 				b.FewConst = quick
 				b.Prune = quick && name != "i32.load" && name != "i64.store"
 				items = append(items, item{Batch: b})
@@ -194,6 +200,7 @@ func childMain() {
 		stride = 1
 	}
 	prog := openProgress(filepath.Join(os.Getenv("C02_DIR"), fmt.Sprintf("w-%s-%d", fw.ChildMode(), start%stride)), true)
+	partial := filepath.Join(os.Getenv("C02_DIR"), fmt.Sprintf("partial-%s-%d.json", fw.ChildMode(), start%stride))
 	touchEvery, _ := strconv.Atoi(os.Getenv("C02_TOUCH_EVERY"))
 	if touchEvery < 1 {
 		touchEvery = 1
@@ -204,7 +211,7 @@ func childMain() {
 		defer pprof.StopCPUProfile()
 		n, _ := strconv.Atoi(os.Getenv("VERIF_CHILD_N"))
 		for i := start; i < n; i += stride {
-			runItem(&items[i].Batch, items[i].From, prog, i, touchEvery)
+			runItem(&items[i].Batch, items[i].From, items[i].Skip, prog, i, touchEvery, "")
 		}
 		pprof.StopCPUProfile()
 		f.Close()
@@ -213,7 +220,7 @@ func childMain() {
 	fw.ChildLoop(func(i int) string {
 		it := items[i]
 		prog.set(i, -1<<40)
-		r := runItem(&it.Batch, it.From, prog, i, touchEvery)
+		r := runItem(&it.Batch, it.From, it.Skip, prog, i, touchEvery, partial)
 		return mustJSON(r)
 	})
 }
@@ -398,13 +405,23 @@ func (a *agg) handle(pool string, items []item, workers int, i int, res string, 
 		}
 		a.crashes++
 		a.cases++
+		a.nontriv++
 		a.perConfig[key]++
 		a.outcomes.Inc("process-" + kind)
 		a.remember(faultSig(kind, d), d)
 		a.sigCount[faultSig(kind, d)]++
 		a.run.Violation(faultSig(kind, d), fmt.Sprintf("%s: the process died (%s) while executing this case: %s", d, kind, fw.FirstLines(crash.Stderr, 3)), d)
-		if seq+1 < len(cases) {
-			a.resumes = append(a.resumes, item{Batch: *b, From: seq + 1})
+		// what the dead child had verified since its last checkpoint is lost: take over the checkpointed part and
+		// run the remainder again in a later pass, without the case that killed it.
+		from := it.From
+		var pr partialResult
+		if raw, err := os.ReadFile(filepath.Join(a.dir, fmt.Sprintf("partial-%s-%d.json", pool, i%workers))); err == nil &&
+			json.Unmarshal(raw, &pr) == nil && pr.Item == i && pr.Res != nil {
+			a.absorb(b, key, pr.Res)
+			from = pr.Next
+		}
+		if from < len(cases) {
+			a.resumes = append(a.resumes, item{Batch: *b, From: from, Skip: append(append([]int{}, it.Skip...), seq)})
 		}
 		return
 	}
@@ -413,6 +430,11 @@ func (a *agg) handle(pool string, items []item, workers int, i int, res string, 
 		a.fatalf("bad child result for item %d: %v: %.200s", i, err, res)
 	}
 	a.items++
+	a.absorb(b, key, &r)
+}
+
+// absorb merges the (complete or checkpointed) result of an item.
+func (a *agg) absorb(b *batch, key string, r *itemResult) {
 	a.genMs += r.GenMs
 	a.compMs += r.CompMs
 	a.runMs += r.RunMs
